@@ -210,6 +210,27 @@ def r18a(ctx: Context) -> None:
         rule.fail(func_key(chooser) + ": order", where(chooser), "scheme selection: " + chain_problems[0] + (f" (+{len(chain_problems) - 1} more)" if len(chain_problems) > 1 else ""))
     else:
         rule.ok(func_key(chooser) + ": order", f"{deciding} path(s): argument, then configuration, then the default scheme")
+    # the configuration layer: an invalid scheme name in a configuration is a configuration error (the property read is
+    # strict and validated against the registry), not a silent fall-back to the default scheme and not a late KeyError
+    scheme_reads = [(f, n) for f in [prog.functions[q] for q in prog.reachable([setter]) if prog.functions[q].cls == setter.cls] + [setter]
+                    for n in walk_local(f.node) if isinstance(n, ast.Call) and isinstance(n.func, ast.Attribute) and n.func.attr == "get_string_property"]
+    seen_reads: Set[int] = set()
+    for holder, read in scheme_reads:
+        if id(read) in seen_reads:
+            continue
+        seen_reads.add(id(read))
+        rkey = func_key(holder, read) + " [strict, validated]"
+        strict = next((k.value for k in read.keywords if k.arg == "strict_mode"), None)
+        validator = next((k.value for k in read.keywords if k.arg == "valid_value_fn"), None)
+        problems = []
+        if not (isinstance(strict, ast.Constant) and strict.value is True):
+            problems.append("is not strict (an invalid name in a configuration file or --set is ignored silently and the run ends with the default scheme's codes)")
+        if validator is None or (isinstance(validator, ast.Constant) and validator.value is None):
+            problems.append("has no validator (a name that is not a scheme is stored and fails as a KeyError at the very end of the run, after files were fixed)")
+        if problems:
+            rule.fail(rkey, where(holder, read), "the read of the configured scheme name " + " and ".join(problems))
+        else:
+            rule.ok(rkey, "strict_mode=True, validated against the registry")
     # the argument layer must be able to be silent: no default on the argparse option
     adder = prog.method(RCH, "add_command_line_arguments")
     for node in walk_local(adder.node):
